@@ -26,14 +26,61 @@ func c18RunHist(f []string) string {
 	if name == "" {
 		return "bad-op"
 	}
+	// the case must be consistent in itself (the shrinker of `check` edits fields independently): the zone loads and
+	// the table describes it at every instant of the history
+	z := c18LoadZone(hs(3))
+	if !z.ok || z.loc == time.UTC || z.loc == time.Local {
+		return "bad-case zone"
+	}
 	k, outs := c18Eval(name, 3, []string{hs(2), hs(3)}, UnHexListS(f[5]))
 	if outs == nil {
 		return k
+	}
+	var instants []string
+	if f[1] == "time" {
+		instants = outs
+	} else {
+		instants = UnHexListS(f[5])
+	}
+	for _, a := range instants {
+		if u, err := strconv.ParseInt(a, 10, 64); err == nil {
+			wo, wa := c18ZoneAt(z, u)
+			if o, ab, ok := c18TabLookup(f[4], u); !ok || o != wo || ab != wa {
+				return "bad-case table"
+			}
+		}
 	}
 	if k != "." {
 		return fmt.Sprintf("ok errs=%s val=%s", k, HexS(outs[0]))
 	}
 	return fmt.Sprintf("ok errs=%s val=%s", k, HexListS(outs))
+}
+
+// c18TabLookup: offset and abbreviation the table `<off>:<abbr>,<from>:<off>:<abbr>,…` has at u.
+func c18TabLookup(tab string, u int64) (int, string, bool) {
+	off, abbr := 0, ""
+	for i, e := range strings.Split(tab, ",") {
+		p := strings.Split(e, ":")
+		if (i == 0 && len(p) != 2) || (i > 0 && len(p) != 3) {
+			return 0, "", false
+		}
+		if i > 0 {
+			t, err := strconv.ParseInt(p[0], 10, 64)
+			if err != nil {
+				return 0, "", false
+			}
+			if u < t {
+				break
+			}
+			p = p[1:]
+		}
+		o, err := strconv.Atoi(p[0])
+		if err != nil {
+			return 0, "", false
+		}
+		off, abbr = o, string(UnHex(p[1]))
+	}
+	return off, abbr, true
 }
 
 // c18LocalMidnight: the instant `time.Date` gives for 00:00 of the local day `days` days after the one of u.
@@ -97,6 +144,14 @@ func c18HistInstants(r *Rand, z c18Zone, base int64) []int64 {
 
 // c18HistCase: one `zh` case for the IANA zone z ("" when no history fits the table).
 func c18HistCase(r *Rand, z c18Zone) string {
+	c := c18HistCase1(r, z)
+	if c != "" && strings.HasPrefix(c18RunHist(strings.Fields(c)), "bad-case") {
+		return "" // an instant outside the table
+	}
+	return c
+}
+
+func c18HistCase1(r *Rand, z c18Zone) string {
 	tr := c18Transitions[z.arg]
 	var base int64
 	if len(tr) > 0 && r.Chance(7, 10) {
